@@ -55,6 +55,8 @@ type CallCfg struct {
 	Flag        bool   `json:"flag"`        // ReturnErrOnFailedRuleEvaluation
 	CancelAt    int    `json:"cancelAt"`    // observable point at which the context is cancelled (-1 never, 0 before the call)
 	Deadline    bool   `json:"deadline"`    // use an already expired deadline instead of cancel (CancelAt == 0)
+	Foreign     bool   `json:"foreign"`     // the context is not one of package context's own types (own Done channel and Err)
+	Cause       bool   `json:"cause"`       // the context is cancelled WITH A CAUSE (context.WithCancelCause): Err() is still context.Canceled
 	FarDeadline bool   `json:"farDeadline"` // the context also has a deadline far in the future (cancellation is still explicit)
 	LateTimer   bool   `json:"lateTimer"`   // the context's deadline has passed by the clock but its timer has not fired yet: Err() is still nil, the run is NOT cancelled
 	LookAt      int    `json:"lookAt"`      // the context reports the cancellation from the LookAt-th time the engine consults it (0 never): reaches the
@@ -281,6 +283,31 @@ func (c *lookCtx) Err() error {
 	}
 	c.onLook(where)
 	return c.Context.Err()
+}
+
+// foreignCtx is a context implemented outside package context (an application's shutdown context, a merged context ...):
+// contexts derived from it learn of its cancellation only through a goroutine, the context itself reports it at once.
+type foreignCtx struct {
+	mu   sync.Mutex
+	done chan struct{}
+	err  error
+}
+
+func (c *foreignCtx) Deadline() (time.Time, bool)       { return time.Time{}, false }
+func (c *foreignCtx) Done() <-chan struct{}             { return c.done }
+func (c *foreignCtx) Value(key interface{}) interface{} { return nil }
+func (c *foreignCtx) Err() error {
+	c.mu.Lock()
+	defer c.mu.Unlock()
+	return c.err
+}
+func (c *foreignCtx) cancel() {
+	c.mu.Lock()
+	defer c.mu.Unlock()
+	if c.err == nil {
+		c.err = context.Canceled
+		close(c.done)
+	}
 }
 
 // lateCtx: a deadline that has passed by the clock while the context's own timer has not fired yet (a real, if short, state of
@@ -587,6 +614,16 @@ func runCall(c *Case, ci int, kb *ast.KnowledgeBase, em *Emitter, watchdog time.
 		ctx, cancel = context.WithTimeout(context.Background(), time.Hour)
 		defer cancel()
 	}
+	if cc.Cause {
+		c2, cancelCause := context.WithCancelCause(context.Background())
+		ctx, cancel = c2, func() { cancelCause(errors.New("the caller's budget is used up")) }
+		defer cancel()
+	}
+	if cc.Foreign {
+		fc := &foreignCtx{done: make(chan struct{})}
+		ctx, cancel = fc, fc.cancel
+		defer cancel()
+	}
 	if cc.LateTimer {
 		ctx = &lateCtx{Context: ctx, at: time.Now().Add(-time.Millisecond)}
 	}
@@ -696,7 +733,7 @@ func runCall(c *Case, ci int, kb *ast.KnowledgeBase, em *Emitter, watchdog time.
 				r.sal = append(r.sal, re.Salience)
 				r.anyDel = r.anyDel || re.Deleted
 			}
-		} else if c.shared != nil || cc.UseCtx || cc.CancelAt >= 0 || cc.Deadline || cc.LookAt > 0 || cc.FarDeadline || cc.LateTimer {
+		} else if c.shared != nil || cc.Foreign || cc.Cause || cc.UseCtx || cc.CancelAt >= 0 || cc.Deadline || cc.LookAt > 0 || cc.FarDeadline || cc.LateTimer {
 			r.err = eng.ExecuteWithContext(ctx, dc, kb)
 		} else {
 			r.err = eng.Execute(dc, kb)
